@@ -83,3 +83,38 @@ package interp
 //@   loop 1 index i
 //@   invariant slots: forall(k, 0, i, dvalue[k] != nil ==> ite(n.kind == defineXStmt && !n.child[k].redeclared, fresh(slotOf(f, n.child[k])), slotOf(f, n.child[k]) == old(slotOf(f, n.child[k]))))
 //@   invariant untouched-so-far: forall(k, i, len(dvalue), slotOf(f, n.child[k]) == old(slotOf(f, n.child[k])))
+
+// Slice expressions (2- and 3-index): the closure stores reflect's Slice / Slice3 of the operand
+// with low, high and max taken from the expression's operands IN ORDER (0 when low is omitted).
+//@ trusted func genValueArray(n) (r)
+//@   result-fn (f) (v)
+//@   fn-ensures v == arrayOf(n, f)
+//@ pred idx(c, f): vInt(operandOf(c, f))
+
+//@ func slice0(n)
+//@   props C04
+//@   ints wrap
+//@   opt gen = true
+//@   opt safety = off
+//@   opt opaque-calls = *
+//@   opt opaque-havoc = none
+//@   exec (f) (ret)
+//@   exec-ensures [path:1] whole: getFrame(f, l).data[i] == rvSliceOp(arrayOf(n.child[0], f), 0, rvLen(arrayOf(n.child[0], f)))
+//@   exec-ensures [path:2] high: getFrame(f, l).data[i] == rvSliceOp(arrayOf(n.child[0], f), 0, idx(n.child[1], f))
+//@   exec-ensures [path:3] high-max: getFrame(f, l).data[i] == rvSlice3Op(arrayOf(n.child[0], f), 0, idx(n.child[1], f), idx(n.child[2], f))
+//@   exec-ensures continues: ret == next
+//@   exec-canary [path:3] swapped: getFrame(f, l).data[i] == rvSlice3Op(arrayOf(n.child[0], f), 0, idx(n.child[2], f), idx(n.child[1], f))
+
+//@ func slice(n)
+//@   props C04
+//@   ints wrap
+//@   opt gen = true
+//@   opt safety = off
+//@   opt opaque-calls = *
+//@   opt opaque-havoc = none
+//@   exec (f) (ret)
+//@   exec-ensures [path:2] low: getFrame(f, l).data[i] == rvSliceOp(arrayOf(n.child[0], f), idx(n.child[1], f), rvLen(arrayOf(n.child[0], f)))
+//@   exec-ensures [path:3] low-high: getFrame(f, l).data[i] == rvSliceOp(arrayOf(n.child[0], f), idx(n.child[1], f), idx(n.child[2], f))
+//@   exec-ensures [path:4] low-high-max: getFrame(f, l).data[i] == rvSlice3Op(arrayOf(n.child[0], f), idx(n.child[1], f), idx(n.child[2], f), idx(n.child[3], f))
+//@   exec-ensures continues: ret == next
+//@   exec-canary [path:4] swapped: getFrame(f, l).data[i] == rvSlice3Op(arrayOf(n.child[0], f), idx(n.child[1], f), idx(n.child[3], f), idx(n.child[2], f))
